@@ -2,7 +2,7 @@
 from fractions import Fraction as Fr
 import numpy as np
 from harness import coqio as Q
-from harness.impl import make_probe, rand_unimodular, family_wcs, exc_name
+from harness.impl import poke, make_probe, rand_unimodular, family_wcs, exc_name
 from harness.props import c14
 
 CORR = "C04_corr"
@@ -100,6 +100,8 @@ def build(case):
 def run(case):
     import astropy.units as u
     cube = build(case)
+    if not case.get("unset"):          # (asking would evaluate the WCS)
+        poke(cube, case["key"])
     nd = cube.data.ndim
     shape = cube.data.shape
     kd = case["keepdims"]
